@@ -277,18 +277,24 @@ def run(ctx) -> None:
     specs = _specs(ctx.quick, rnd)
     n = 0
     for i, spec in enumerate(specs):
-        # each bad frame: alone (no good frame) under two operations, and mixed before/after the good answer
-        ops = [OPS[i % len(OPS)], OPS[(i // len(OPS) + 3) % len(OPS)]] if ctx.quick else OPS
+        # each bad frame: alone (no good frame) and mixed before/after the good answer; frames that look like one of the
+        # known response kinds meet every operation, the rest two operations each (all of them in the thorough tier)
+        known_kind = spec["t"] != "id" or spec["id"] in (0xB0, 0xB1, 0xB5, 0xC0, 0xC1)
+        if not ctx.quick or (spec["t"] == "id" and known_kind):
+            ops = OPS
+        else:
+            ops = [OPS[i % len(OPS)], OPS[(i // len(OPS) + 3) % len(OPS)]]
         for op in dict.fromkeys(ops):
             for arrangement in ("alone", "before", "after"):
-                n += 1
-                if not ctx.mine(n):
-                    continue
-                if ctx.quick and arrangement == "after" and i % 2:
-                    continue
-                case = {"op": op, "good": arrangement != "alone", "pre": [spec] if arrangement != "after" else [],
-                        "post": [spec] if arrangement == "after" else [], "two_pages": op == "caps" and i % 2 == 0}
-                ctx.check(case, lambda c: _run_one(ctx, c))
+                for two_pages in ((False, True) if op.startswith("caps") else (False,)):
+                    n += 1
+                    if not ctx.mine(n):
+                        continue
+                    if ctx.quick and arrangement == "after" and i % 2 and not (spec["t"] == "id" and known_kind):
+                        continue
+                    case = {"op": op, "good": arrangement != "alone", "pre": [spec] if arrangement != "after" else [],
+                            "post": [spec] if arrangement == "after" else [], "two_pages": two_pages}
+                    ctx.check(case, lambda c: _run_one(ctx, c))
     ctx.sweep("bad frame catalogue x operations x arrangements", n, not ctx.quick)
 
     hexb = lambda s_: s_.map(lambda b: b.hex())
